@@ -18,6 +18,7 @@ class StrStream(FM.FormulaStream):
     p_missing = (0.0, 0.0, 0.1)
     p_unaligned = 0.1
     p_stall = 0.05
+    p_ends = 0.06
 
     def gen(self, rng, tier):
         n = self.n_quick if tier == "quick" else self.n_thorough
@@ -31,6 +32,14 @@ class StrStream(FM.FormulaStream):
                 names = sorted(FM.ast_vars(c["ast"]))
                 c["rows"] = FM.gen_rows(rng, names, rng.randint(10, 12), 0.0)
                 c["stall"] = FM.gen_stall(rng, names, len(c["rows"]))
+            elif len(FM.ast_vars(c["ast"])) > 1 and rng.random() < self.p_ends:
+                names = sorted(FM.ast_vars(c["ast"]))
+                c["rows"] = FM.gen_rows(rng, names, rng.randint(4, 6), 0.0)
+                if rng.random() < 0.6:      # one input stream ENDS mid-run, the others continue
+                    c["ends"] = [str(rng.choice(names)), rng.randint(1, len(c["rows"]) - 2)]
+                else:                        # a stream that started earlier loses its sample of row 0
+                    c["lost"] = str(rng.choice(names))
+                    c["pre_rows"] = [{c["lost"]: FM.gen_value(rng, 0.3)}]
             yield c
         if tier == "thorough":      # every AST of depth <= 2 over three variables
             for ast in FM.all_asts(2, [1, 2, 3]):
@@ -53,7 +62,12 @@ class StrStream(FM.FormulaStream):
             return [{"what": f"rejected: well-formed formula {formula!r} raised {obs['error']}", "finding": None}]
         if FM.std_parse(formula) != FM.strip_parens(case["ast"]):
             raise AssertionError("harness bug: printer and reference parser disagree on " + formula)
-        FM.judge_rows(case, obs, lambda row: FM.eval_ast(case["ast"], row, case["nz"]), out)
+        if case.get("lost"):   # steady state only: from the third common timestamp on every sample must be there and right
+            FM.judge_rows({**case, "rows": case["rows"][2:]}, {**obs, "out": obs["out"][2:], "float_out": (obs.get("float_out") or [])[2:]},
+                          lambda row: FM.eval_ast(case["ast"], row, case["nz"]), out)
+            return out
+        FM.judge_rows(FM.cut_case(case, obs), obs, lambda row: FM.eval_ast(case["ast"], row, case["nz"]), out)
+        out += FM.tail_violations(obs)
         return out
 
     def key(self, case, obs):
@@ -76,6 +90,10 @@ class StrStream(FM.FormulaStream):
             out.append("unaligned_start")
         if case.get("stall"):
             out.append(f"one_input_stalls_{case['stall'][2] * 10}s_then_catches_up")
+        if case.get("ends"):
+            out.append("one_input_stream_ends_mid_run")
+        if case.get("lost"):
+            out.append("earlier_stream_loses_its_first_common_sample")
         for k, row in enumerate(case["rows"]):
             if FM.eval_ast(a, row, True) is None:
                 out.append("zero_divisor")
@@ -94,6 +112,7 @@ class HoStream(FM.FormulaStream):
     p_src_nz = 0.1
     p_unaligned = 0.1
     p_stall = 0.05
+    p_ends = 0.06
 
     def gen(self, rng, tier):
         n = self.n_quick if tier == "quick" else self.n_thorough
@@ -107,6 +126,9 @@ class HoStream(FM.FormulaStream):
             elif len(names) > 1 and rng.random() < self.p_stall:
                 c["rows"] = FM.gen_rows(rng, names, rng.randint(10, 12), 0.0)
                 c["stall"] = FM.gen_stall(rng, names, len(c["rows"]))
+            elif len(names) > 1 and not c.get("stop") and rng.random() < self.p_ends:
+                c["rows"] = FM.gen_rows(rng, names, rng.randint(4, 6), 0.0)
+                c["ends"] = [str(rng.choice(names)), rng.randint(1, len(c["rows"]) - 2)]
             yield c
 
     def to_coq(self, case, obs):
@@ -118,7 +140,8 @@ class HoStream(FM.FormulaStream):
         builds = obs.get("builds") or [{"tree": case["tree"], "nz": case["nz"], **obs}]
         for i, b in enumerate(builds):     # every engine that was built must compute ITS expression
             sub = []
-            cb = {**case, "rows": case["rows"][:b["stopped_at"]]} if "stopped_at" in b else case
+            cb = FM.cut_case(case, b)
+            sub += FM.tail_violations(b, f"engine #{i + 1}: ")
             FM.judge_rows(cb, b, lambda row: FM.eval_hb(b["tree"], row, lambda n: b["nz"] or src.get(str(n), False)), sub)
             if len(builds) > 1:
                 for v in sub:
@@ -152,6 +175,10 @@ class HoStream(FM.FormulaStream):
             out.append("unaligned_start")
         if case.get("stall"):
             out.append(f"one_input_stalls_{case['stall'][2] * 10}s_then_catches_up")
+        if case.get("ends"):
+            out.append("one_input_stream_ends_mid_run")
+        if case.get("lost"):
+            out.append("earlier_stream_loses_its_first_common_sample")
         if case.get("perturb"):
             out.append("builders_reused_after_combination")
         if obs.get("out") and any(o is None for o in obs["out"]):
